@@ -37,6 +37,24 @@ def gen_cases(ctx, rng):
         src.append({"at": t + rng.range(1, 100) * L.MS, "close": True})
         cases.append(L.cap_case({"dir": rng.choice(["upstream", "downstream"]), "chain": pre + [bw] + post, "src": src,
                                  "horizon": 36000 * 1000 * L.MS, "seed": i}, 900))
+    # the stage interrupted in the middle of its instalments or its final wait (a neighbour is added/removed/updated, or its own rate
+    # is rewritten to the same value): what it holds is flushed, neither dropped nor repeated
+    m = 40 if ctx.tier == "quick" else 1500
+    stats["interrupted"] = 0
+    for i in range(m):
+        R = rng.choice([1, 2, 3, 7])
+        chain = [L.tx("bandwidth", name="b", rate=R)] + ([L.tx("noop", name="q")] if rng.chance(1, 2) else [])
+        big = min(32768, 100 * R * rng.range(3, 9) + rng.range(0, 99))
+        src = [{"at": 1 * L.MS, "n": big}, {"at": 2 * L.MS, "n": rng.range(1, 50)}, {"at": 30000 * L.MS, "close": True}]
+        at = rng.range(1, 6) * 100 * L.MS + rng.range(1, 99) * L.MS
+        op = rng.choice(["add", "remove", "update_self", "update_nb"]) if len(chain) == 2 else rng.choice(["add", "update_self"])
+        ops = [{"add": {"at": at, "op": "add", "toxic": L.tx("noop", name="z")},
+                "remove": {"at": at, "op": "remove", "name": "q"},
+                "update_self": {"at": at, "op": "update", "name": "b", "body": '{"attributes": {"rate": %d}}' % R},
+                "update_nb": {"at": at, "op": "update", "name": "q", "body": '{"toxicity": 1}'}}[op]]
+        cases.append({"dir": rng.choice(["upstream", "downstream"]), "chain": chain, "src": src, "ops": ops, "interrupted": True,
+                      "horizon": 36000 * 1000 * L.MS, "seed": 7000 + i})
+        stats["interrupted"] += 1
     return cases, stats
 
 
@@ -50,6 +68,8 @@ def oracle(case, res):
     sent = sum(e.get("n", 0) for e in case["src"])
     if not res["prefix_ok"] or res["total"] != sent:
         return "content/order changed or bytes missing (%d of %d)" % (res["total"], sent)
+    if case.get("interrupted"):
+        return None                       # the interrupt flushes the rest at once: only content and completeness are judged
     ws = res["writes"] or []
     first = min([e["at"] for e in case["src"] if not e.get("close")] or [0])
     cum = 0
@@ -68,9 +88,11 @@ def run(ctx):
         ctx, PID, gen_cases, oracle,
         classify=lambda w: "rate-exceeded" if "more than" in w and "bytes/ms" in w else ("instalment" if "worth of budget" in w else ("stream" if "bytes" in w else "crash")),
         rule="one bandwidth toxic (rate from {1,2,3,7,10,100,1024,10^6} KB/s) at positions 1-3 with noop/latency neighbours; chunk sizes around "
-             "100*rate (+-1), far below and several times above, a big chunk followed by small ones, bursts and idle gaps; non-trivial = some "
+             "100*rate (+-1), far below and several times above, a big chunk followed by small ones, bursts and idle gaps; plus links whose bandwidth stage is interrupted during its "
+             "instalments (neighbour added / removed / updated, own rate rewritten) judged on content and completeness; non-trivial = some "
              "chunk exceeds 100*rate or two chunks arrive within the first one's budget; distinct by JSON",
         nontrivial=lambda c: len(c["src"]) > 2,
+        model_filter=lambda c: not c.get("ops"),
         assumptions=["rate <= 0 is outside the property (C07)",
                      "the cumulative bound for chunk sequences composes C09_small_chunk / C09_instalment with C09_rate_bound_partial by the exact "
                      "correspondence, not by a theorem"])
